@@ -430,15 +430,14 @@ theorem read_write_waveform (ops : FOps) (w : List WEntry) (c : Option UInt64) (
               rcases h0 with h | h
               · exact Or.inl ((u64_eq_zero_iff n).mp h)
               · exact Or.inr ((qn_zero_iff t).mp h)
-            simp [h0, h0', resample, resampleAt, Res.bind, readWaveform, pointsOf, entriesOfPoints,
-              Spec.overviewOf]
+            simp [h0, h0']
           · have h0' : ¬ (n.toNat = 0 ∨ Pure.Waveform.qn t.natAbs = 0) := by
               intro h; apply h0
               rcases h with h | h
               · exact Or.inl ((u64_eq_zero_iff n).mpr h)
               · exact Or.inr ((qn_zero_iff t).mpr h)
             have hres := resampleAt_ok w (List.range 1024) (fun i hi => idx_lt _ _ hl (by simpa using hi))
-            simp only [h0, h0', if_false, resample, hres, Res.bind]
+            simp only [h0, h0', if_false, resample, hres, Res.bind, (by decide : ¬ (1024 : Nat) = 0)]
             refine ⟨_, rfl, ?_⟩
             simp only [readWaveform, entriesOfPoints_pointsOf, overviewOf_eq]
 
